@@ -145,6 +145,8 @@ def correspondence(rep, ctx):
             if abs(F(left) - Fraction(1, 2)) > Fraction(1, 10**14):
                 fail(f"InventoryHP({{{nm!r}: 1}}).decay(half_life={v!r}, 's')", f"leaves {left!r}, not 1/2")
             rep.dist("halving-hp")
+    # ---- 4. a dataset with a different days-per-year, used in the same process as the default one
+    alt_year_checks(rd, rep, fail, r, thorough)
     for i in [j for j in range(view.n) if view.rate[j] == 0][:: (1 if thorough else 25)]:
         nm = view.names[i]
         for u in ("s", "y", "readable"):
@@ -153,6 +155,78 @@ def correspondence(rep, ctx):
             if (u == "readable" and v != "stable") or (u != "readable" and v != float("inf")):
                 fail(f"half_life({nm!r}, {u!r})", f"{v!r} for a stable nuclide")
     rep.notes["mismatches"] = bad
+
+
+def alt_dataset(rd, days_f=365.25, days_q=(1461, 4)):
+    """the default dataset with another days-per-year, through the public constructors; decay
+    constants are re-derived from the listed half-lives with that year (exactly, on the SymPy side)"""
+    import numpy as np
+    import sympy
+    dd = rd.DEFAULTDATA
+    convF = rd.converters.UnitConverterFloat
+    lam = np.array([np.log(2) / convF.time_unit_conv(h[0], units_from=h[1], units_to="s", year_conv=days_f) for h in dd.hldata])
+    sd = dd.scipy_data
+    sdata = rd.decaydata.DecayMatricesScipy(sd.atomic_masses, lam, sd.matrix_c, sd.matrix_c_inv)
+    yq = sympy.Rational(*days_q)
+    sy = dd.sympy_data
+    ratio = dd.sympy_year_conv / yq
+    consts = sy.decay_consts.copy()
+    for i, h in enumerate(dd.hldata):
+        if str(h[1]) in convF.year_units:
+            consts[i] = sy.decay_consts[i] * ratio
+    sydata = rd.decaydata.DecayMatricesSympy(sy.atomic_masses, consts, sy.matrix_c, sy.matrix_c_inv)
+    return rd.decaydata.DecayData("verif_year_36525", dd.bfs, days_f, dd.hldata, dd.modes, dd.nuclides, dd.progeny,
+                                  sdata, sydata, yq)
+
+
+def alt_year_checks(rd, rep, fail, r, thorough):
+    """year-based units must use the days-per-year of the dataset the inventory is bound to, whichever dataset was used
+    first; nuclides with a single stable daughter are used (their matrix entries do not depend on the decay constants)"""
+    dd = rd.DEFAULTDATA
+    alt = alt_dataset(rd)
+    convF = rd.converters.UnitConverterFloat
+    year_units = sorted(convF.year_units)
+    cand = []
+    for i, nm in enumerate(dd.nuclides):
+        h = dd.hldata[i]
+        if str(h[1]) == "y" and len(dd.progeny[i]) == 1 and str(dd.progeny[i][0]) in dd.nuclide_dict and \
+                dd.half_life(str(dd.progeny[i][0])) == float("inf"):
+            cand.append(str(nm))
+    picks = cand if thorough else r.sample(cand, min(6, len(cand)))
+    mult = {"y": 1, "yr": 1, "year": 1, "years": 1, "ky": 1e3, "My": 1e6, "By": 1e9, "Gy": 1e9, "Ty": 1e12, "Py": 1e15}
+    for nm in picks:
+        hl_y = float(dd.hldata[dd.nuclide_dict[nm]][0])
+        for ds, days in ((dd, float(dd.float_year_conv)), (alt, 365.25), (dd, float(dd.float_year_conv)), (alt, 365.25)):
+            secs_hl = F(hl_y) * F(days) * 86400
+            for u in year_units:
+                desc = f"dataset with {days} days/year, {nm}, unit {u!r}"
+                rep.case(("altyear", ds.dataset_name, nm, u))
+                rep.dist("alt-days-per-year")
+                t = 3 * hl_y / mult[u]
+                inv = rd.Inventory({nm: 1.0e9}, "num", True, ds)
+                a = inv.decay(t, u).numbers()[nm]
+                b = inv.decay(float(3 * secs_hl), "s").numbers()[nm]
+                if abs(F(a) - F(b)) > Fraction(1, 10**5) or abs(F(a) - Fraction(10**9, 8)) > Fraction(1, 10**4):
+                    fail(desc, f"decay(3 half-lives in {u}) leaves {a!r}; with the equivalent seconds {b!r}; expected 1.25e8")
+                    continue
+                c1 = inv.cumulative_decays(t, u)[nm]
+                if abs(F(c1) - Fraction(7 * 10**9, 8)) > Fraction(1, 10**3):
+                    fail(desc, f"cumulative_decays(3 half-lives in {u}) = {c1!r}, expected 8.75e8")
+                    continue
+                hq = ds.half_life(nm, u)
+                if abs(F(hq) - F(hl_y) / Fraction(mult[u])) > 4 * ULP * F(hl_y) / Fraction(mult[u]):
+                    fail(desc, f"half_life in {u} = {hq!r}")
+                    continue
+            hs = ds.half_life(nm, "s")
+            if abs(F(hs) - secs_hl) > 4 * ULP * secs_hl:
+                fail(f"dataset with {days} days/year", f"half_life({nm!r}, 's') = {hs!r}, listed {hl_y} y x {days} d x 86400 = {float(secs_hl)!r}")
+            if nm == picks[0] or thorough:
+                h = rd.InventoryHP({nm: 8}, "num", True, ds)
+                left = h.decay(3 * hl_y, "y").numbers()[nm]
+                left_s = h.decay(float(3 * secs_hl), "s").numbers()[nm]
+                if abs(F(left) - 1) > Fraction(1, 10**12) or abs(F(left_s) - 1) > Fraction(1, 10**12):
+                    fail(f"dataset with {days} days/year (high precision)", f"{nm}: 8 atoms after 3 half-lives: {left!r} (years), {left_s!r} (seconds)")
+                rep.dist("alt-days-per-year-hp")
 
 
 def search(rep, ctx) -> bool:
